@@ -110,7 +110,14 @@ func c07AGen(t *rapid.T) c07ACase {
 			c.Ops = append(c.Ops, c07AOp{Op: "close"}, c07AOp{Op: "burst", N: rapid.IntRange(200, 1100).Draw(t, "burstn")})
 			continue
 		}
-		switch rapid.IntRange(0, 11).Draw(t, "opclass") {
+		switch rapid.IntRange(0, 12).Draw(t, "opclass") {
+		case 12:
+			// fill the queue (the disk is alive), then one more write must find room without any flush
+			c.Ops = append(c.Ops, c07AOp{Op: "open"})
+			for k := 0; k < c.Depth+2 && k < 40; k++ {
+				c.Ops = append(c.Ops, c07AOp{Op: "write", N: 100})
+			}
+			c.Ops = append(c.Ops, c07AOp{Op: "drainwait"})
 		case 0:
 			c.Ops = append(c.Ops, c07AOp{Op: "flush"})
 		case 1, 2:
@@ -141,6 +148,7 @@ func c07ARun(c c07ACase) (v vVerdict) {
 	aw := asyncbufio.NewWriter(gate, c.Depth, every)
 	var want []byte
 	rejected, acceptedAfterReject := 0, 0
+	drainWaits := 0
 	pos := 0
 	var ops []c07AOp
 	for _, op := range c.Ops {
@@ -186,6 +194,34 @@ func c07ARun(c c07ACase) (v vVerdict) {
 			for k := 0; k < op.N; k++ {
 				time.Sleep(50 * time.Microsecond)
 			}
+		case "drainwait":
+			// The disk is alive and nobody flushes: the queue must empty by itself (its own thread moves the data on), so a
+			// write that does not fit now fits a moment later. "A moment" is generous: 5 s, and not judged on a starved machine.
+			if stalled {
+				continue
+			}
+			p := make([]byte, 64)
+			for k := range p {
+				p[k] = c07APattern(pos + k)
+			}
+			deadline := time.Now().Add(5 * time.Second)
+			accepted := false
+			for !accepted && time.Now().Before(deadline) {
+				if n, err := aw.Write(p); err == nil && n == len(p) {
+					accepted = true
+				} else {
+					time.Sleep(200 * time.Microsecond)
+				}
+			}
+			if !accepted {
+				if vStarved(5 * time.Second) {
+					return vVerdict{Inconclusive: "the writer's thread was given no time (overloaded machine)"}
+				}
+				return vFailf("queue-never-drains", "op %d: with the disk alive, a queue of depth %d still refuses a 64-byte write after 5 s without a flush: nothing empties the queue", i, c.Depth)
+			}
+			want = append(want, p...)
+			pos += len(p)
+			drainWaits++
 		case "flush":
 			gate.set(true) // a flush against a dead disk blocks by design; the disk must be alive for it to return
 			stalled = false
@@ -243,6 +279,9 @@ func c07ARun(c c07ACase) (v vVerdict) {
 	}
 	if c.FlushEveryUs > 0 {
 		v.Classes = append(v.Classes, "periodic-flushes")
+	}
+	if drainWaits > 0 {
+		v.Classes = append(v.Classes, "queue-empties-without-flush")
 	}
 	return v
 }
